@@ -269,6 +269,7 @@ def metropolis_frequency(ctx: Ctx) -> None:
 def predicates(ctx: Ctx) -> None:
     rng = ctx.rng
     deep = getattr(ctx, "deep_search", False)
+    bh.bond_oracle(ctx)          # "with its bonding intact" is judged by this test
     # corpus: the boundary draw u == exp(-dE/T) and a failed downhill step
     metropolis_predicate(ctx, [(0.0, 1.0, 1.0, float(np.exp(-1.0))), (0.0, 1.0, 1.0, float(np.nextafter(np.exp(-1.0), 0))),
                                (1.0, 0.0, 1.0, 0.999), (0.0, 0.0, 1.0, 0.999), (0.0, 1.0, 1e-6, 0.0)])
@@ -308,6 +309,11 @@ def predicates(ctx: Ctx) -> None:
 
 def replay(ctx: Ctx, data: dict) -> bool:
     r = None
+    if "bond_oracle" in data:
+        r = bh.bond_oracle_predicate(data["bond_oracle"]["pts"], data["bond_oracle"]["cutoff"])
+        if r:
+            print(f"  {r[0]}: {r[1]}")
+        return r is None
     if "metropolis" in data:
         e1, e2, T, u = data["metropolis"]
         n0 = len(ctx.failures)
